@@ -71,7 +71,8 @@ def execute(case):
         hc = {"watchers": [{"name": n, "numprocesses": 1,
                             "graceful_timeout": 0.2}
                            for n in case.get("initial", [])],
-              "ops": [], "tape": []}
+              "ops": [], "tape": [],
+              "default_beh": case.get("default_beh")}
     viols = []
     classes = set()
     h = None
@@ -165,8 +166,18 @@ def execute(case):
                                 name, rep.get("reason"))))
             elif kind == 'rm':
                 pids = h.pids(name) or []
+                waiting = (len(op) < 4 or op[3])
                 r = w.request('rm', {"name": name, "nostop": op[2],
-                                     "waiting": True})
+                                     "waiting": waiting})
+                if not waiting and name.lower() in model and \
+                        (r.reply() or {}).get("status") == "ok":
+                    # the directory must be coherent *while* the removed
+                    # watcher's workers are still being stopped
+                    classes.add('directory-read-during-rm')
+                    saved = model.pop(name.lower())
+                    w.step(2)
+                    coherent('during-rm %r' % name)
+                    model[name.lower()] = saved
                 w.drain()
                 rep = r.reply() or {}
                 if name.lower() in model:
@@ -282,7 +293,8 @@ def _strategy():
     op = st.one_of(
         st.tuples(st.just('add'), name, st.booleans()).map(list),
         st.tuples(st.just('add'), name, st.booleans()).map(list),
-        st.tuples(st.just('rm'), name, st.booleans()).map(list),
+        st.tuples(st.just('rm'), name, st.booleans(),
+                  st.booleans()).map(list),
         st.tuples(st.just('start'), name).map(list),
         st.tuples(st.just('stop'), name).map(list),
         st.tuples(st.just('status'), name).map(list))
@@ -300,7 +312,10 @@ def _strategy():
         initial = draw(st.lists(st.sampled_from(["a", "web", "b"]),
                                 max_size=2, unique=True))
         ops = draw(st.lists(op, min_size=1, max_size=25))
-        return {"initial": initial, "ops": ops}
+        return {"initial": initial, "ops": ops,
+                "default_beh": draw(st.sampled_from(
+                    [None, {"react": "die", "delay": 0.15},
+                     {"react": "ignore"}]))}
     return case()
 
 
